@@ -191,7 +191,7 @@ def _(c):
     c.call("TopicAuthorizationFailedError", returns=EXC, note="exception constructor")
     c.call("txn_manager.error_transaction", modifies=["TransactionManager.state", "TransactionManager._txn_partitions",
            "TransactionManager._pending_txn_partitions", "TransactionManager._txn_consumer_group", "TransactionManager._pending_txn_offsets",
-           "Future.state", "Future.nres", "Future.exc"],
+           "Future.state", "Future.nres", "Future.exc"], raises=["AssertionError"],
            note="TransactionManager.error_transaction (under contract, C16): abstracted here because its preconditions "
                 "(a transaction is open) are facts about the caller's history")
     c.modifies("TransactionManager.state", "TransactionManager._txn_partitions", "TransactionManager._pending_txn_partitions",
@@ -260,7 +260,7 @@ def _(c):
            note="asyncio.wait(waiters, FIRST_COMPLETED): suspends; returns (done, pending), every member of done is done")
     c.call("self._message_accumulator.drain_by_nodes", returns=Tup(message_accumulator.NODES, BOOL),
            modifies=["MessageAccumulator.*", "MessageBatch.*", "BatchBuilder.*", "TransactionManager._sequence_numbers",
-                     "Future.state", "Future.nres", "Future.exc"],
+                     "Future.state", "Future.nres", "Future.exc"], raises=["AssertionError"],
            note="MessageAccumulator.drain_by_nodes (under contract, C01: never drains a muted partition, takes queue heads only); "
                 "abstracted here because its preconditions are the accumulator's own object invariant")
     c.modifies("self._in_flight", "self._muted_partitions", "TransactionManager._task_waiter", "Future.state", "Future.nres", "Future.exc",
